@@ -339,6 +339,10 @@ pub mod checks {
                 out.push(JpQuery::new(vec![Segment::Selector(Selector::Slice(Some(i), Some(-i), Some(1)))]));
                 out.push(JpQuery::new(vec![Segment::Selector(Selector::Slice(None, None, Some(i)))]));
             }
+        } else if name == "text_e2e" {
+            // the whole end-to-end query menu (1 and 2 segments, a sample of the 3-segment ones) printed and sent through the parser
+            let all = queries(tier, seed);
+            for (i, q) in all.into_iter().enumerate() { if q.segments.len() <= 1 || tier == "thorough" || i % 5 == 0 { out.push(q); } }
         } else if name == "text_cmp" {
             // comparisons through the parser: every comparison atom of the menu, plus string literals that need escaping in the query text
             let mut fs: Vec<Filter> = atoms().into_iter().filter(|f| matches!(f, Filter::Atom(FilterAtom::Comparison(_)))).collect();
